@@ -19,7 +19,14 @@ import StraxModel.Model.Rechunk
     FileNotFoundError (an OSError); `len(data) != n` ⇒ DataCorrupted; `run_id` None ⇒ AttributeError
     (`Other`); super-run id without subruns ⇒ ValueError; then `Chunk.__init__` (`mkChunk`) with
     `data_type / data_kind / target_size_mb` taken from the metadata header and `superrun=None`;
-  * an empty chunk list ⇒ ValueError ("it has no chunks").
+  * an empty chunk list ⇒ ValueError ("it has no chunks");
+  * byte sizes: `nbytes = len(chunk) * dtype.itemsize` in every chunk_info; the serial saver records
+    `filesize` = number of bytes `save_file` wrote (`blobSize rows`, an uninterpreted positive
+    function of the rows: the codec); with an executor `_save_chunk` returns only the file name, so no
+    `filesize` is recorded;
+  * executor: `executor.submit(strax.save_file, …)` makes the write *pending*; metadata is appended at
+    once; before `close` every pending write has finished, in an order the model takes as a parameter
+    (`completeWrites order`); thread-pool loading: one future per chunk info, resolved in chunk order.
 -/
 namespace Strax.Storage
 open Strax
@@ -33,10 +40,11 @@ structure Header where
   /-- `chunk_target_size_mb`, expressed in rows like `Chunk.target` -/
   target : Nat
   pfx : String
+  /-- `dtype.itemsize` of the saved rows (bytes per row) -/
+  itemsize : Nat := 1
 deriving Repr, DecidableEq, Inhabited
 
-/-- one entry of `metadata["chunks"]` (without `nbytes` / `filesize`, which are functions of the
-dtype and the codec and are checked by the harness oracle). -/
+/-- one entry of `metadata["chunks"]` -/
 structure ChunkInfo where
   i : Nat
   n : Nat
@@ -49,6 +57,10 @@ structure ChunkInfo where
   lastTime : Option Int
   lastEnd : Option Int
   filename : Option String
+  /-- `chunk.nbytes` -/
+  nbytes : Nat := 0
+  /-- bytes written by `save_file`; only the serial saver knows it when the chunk_info is written -/
+  filesize : Option Nat := none
 deriving Repr, DecidableEq, Inhabited
 
 structure Meta where
@@ -78,39 +90,53 @@ def pad6 (i : Nat) : String :=
 /-- `FileSaver._chunk_filename`: `f"{prefix}-{chunk_i:06d}"` -/
 def chunkFilename (pfx : String) (i : Nat) : String := pfx ++ "-" ++ pad6 i
 
+/-- Size in bytes of the compressed file holding `rows`.  Codec-specific and deliberately
+uninterpreted (`opaque`): nothing can be proved from its value, so every theorem holds for every
+codec; the only fact kept is that a written file is never empty (all four codecs emit a header). -/
+opaque blobSize : List Row → { n : Nat // 0 < n } := fun _ => ⟨1, Nat.one_pos⟩
+
 /-! ### Saver -/
 
 structure Saver where
   md : Meta
   files : Files
   closed : Bool
+  /-- chunk writes go to an executor (`save_from(..., executor=pool)`) -/
+  exec : Bool := false
+  /-- writes submitted to the executor and not yet finished, in submission order -/
+  pending : Files := []
 deriving Repr, DecidableEq
 
 /-- `Saver.__init__` + `FileSaver.__init__` (fresh temp directory) -/
-def Saver.init (hdr : Header) : Saver :=
+def Saver.init (hdr : Header) (exec : Bool := false) : Saver :=
   { md := { hdr, chunks := [], start := none, stop := none, writingEnded := false, exception := false },
-    files := [], closed := false }
+    files := [], closed := false, exec := exec, pending := [] }
 
 /-- the `chunk_info` dict built by `Saver.save` before `_save_chunk` adds the file name -/
-def chunkInfoOf (i : Nat) (c : Chunk) : ChunkInfo :=
+def chunkInfoOf (itemsize : Nat) (i : Nat) (c : Chunk) : ChunkInfo :=
   { i, n := c.rows.length, start := c.start, stop := c.stop, runId := c.runId, subruns := c.subruns,
     firstTime := c.rows.head?.map (·.time), firstEnd := c.rows.head?.map (·.endt),
     lastTime := c.rows.getLast?.map (·.time), lastEnd := c.rows.getLast?.map (·.endt),
-    filename := none }
+    filename := none, nbytes := c.rows.length * itemsize, filesize := none }
 
 /-- `Saver.save(chunk, chunk_i)` with `FileSaver._save_chunk` and `_save_chunk_metadata` (not forked). -/
 def Saver.save (s : Saver) (c : Chunk) (i : Nat) : Except Err Saver :=
   if s.closed then throw Err.runtimeError
   else
-    let info := chunkInfoOf i c
-    let (info, files) :=
-      if c.rows.isEmpty then (info, s.files)
+    let info := chunkInfoOf s.md.hdr.itemsize i c
+    let (info, files, pending) :=
+      if c.rows.isEmpty then (info, s.files, s.pending)
       else
         let fn := chunkFilename s.md.hdr.pfx i
-        ({ info with filename := some fn }, writeFile s.files fn c.rows)
+        if s.exec then
+          -- `executor.submit(strax.save_file, fn, …)`: only the file name is known now
+          ({ info with filename := some fn }, s.files, s.pending ++ [(fn, c.rows)])
+        else
+          ({ info with filename := some fn, filesize := some (blobSize c.rows).val },
+           writeFile s.files fn c.rows, s.pending)
     -- `_save_chunk_metadata`: the first chunk sets md["start"]; append
     let md := if i = 0 then { s.md with start := some info.start } else s.md
-    pure { s with md := { md with chunks := md.chunks ++ [info] }, files }
+    pure { s with md := { md with chunks := md.chunks ++ [info] }, files, pending }
 
 /-- `Saver.close`; `exc` = "an exception is being handled while close runs". -/
 def Saver.close (s : Saver) (exc : Bool) : Except Err Saver :=
@@ -163,6 +189,31 @@ def saveAll (argmin0 : Int) (rechunk : Bool) (hdr : Header) (src : List Chunk) :
   | (sv, none) => pure (sv.md, sv.files)
   | (_, some e) => throw e
 
+/-- `wait(pending)`: every write submitted to the executor has finished; `order` lists the positions
+of the pending writes in the order in which they complete (each goes to its own temp name and is
+then renamed, so they do not interfere). -/
+def completeWrites (order : List Nat) (sv : Saver) : Saver :=
+  { sv with files := (order.filterMap (sv.pending[·]?)).foldl (fun fs p => writeFile fs p.1 p.2) sv.files,
+            pending := [] }
+
+/-- `save_from(source, rechunk, executor=pool)`: as `saveFrom`, but chunk files are written by the
+pool and complete in the order `order` (a permutation of the pending writes) before `close`. -/
+def saveFromExec (argmin0 : Int) (rechunk : Bool) (hdr : Header) (src : List Chunk) (order : List Nat) :
+    Saver × Option Err :=
+  let (sv, e) := saveLoop argmin0 (Saver.init hdr true) ⟨rechunk, hdr.runId.startsWith "_", none⟩ 0 src
+  let sv := completeWrites order sv
+  if sv.closed then (sv, e)
+  else
+    match sv.close e.isSome with
+    | .ok sv' => (sv', e)
+    | .error e' => (sv, some e')
+
+def saveAllExec (argmin0 : Int) (rechunk : Bool) (hdr : Header) (src : List Chunk) (order : List Nat) :
+    Except Err (Meta × Files) :=
+  match saveFromExec argmin0 rechunk hdr src order with
+  | (sv, none) => pure (sv.md, sv.files)
+  | (_, some e) => throw e
+
 /-! ### Loader -/
 
 /-- a `subruns` dict after `json.dumps(..., sort_keys=True)` / `json.loads`: ordered by run id -/
@@ -192,6 +243,23 @@ def loadAll (md : Meta) (files : Files) : Except Err (List Chunk) :=
   if md.chunks.isEmpty then throw Err.valueError
   else md.chunks.mapM (loadChunk md files)
 
+/-- loader with an executor: one future per chunk info, submitted in chunk order … -/
+def submitAll (md : Meta) (files : Files) : List (Except Err Chunk) :=
+  md.chunks.map (loadChunk md files)
+
+/-- … and resolved (`future.result()`) by the consumer in that order: the first failure in chunk
+order is the one raised -/
+def resolveInOrder : List (Except Err Chunk) → Except Err (List Chunk)
+  | [] => pure []
+  | f :: fs => do
+    let c ← f
+    let cs ← resolveInOrder fs
+    pure (c :: cs)
+
+def loadAllExec (md : Meta) (files : Files) : Except Err (List Chunk) :=
+  if md.chunks.isEmpty then throw Err.valueError
+  else resolveInOrder (submitAll md files)
+
 /-! ### decidable hypotheses of the C03 theorems -/
 
 def rowsInside (a b : Int) (rows : List Row) : Bool :=
@@ -220,6 +288,21 @@ def restorableRuns : Option Runs → Bool
 def storableB (rid : String) (c : Chunk) : Bool :=
   decide (0 ≤ c.start) && decide (c.start ≤ c.stop) && rowsInside c.start c.stop c.rows &&
   (c.runId == some rid) && restorableRuns c.subruns && (!rid.startsWith "_" || c.subruns.isSome)
+
+/-- sub-run spans as strax produces them: each of positive length, in time order, not overlapping
+(empty spans are popped by `_pop_out_empty_run_id`); ids in any order -/
+def spansOkB : Runs → Bool
+  | [] => true
+  | [a] => decide (a.start < a.stop)
+  | a :: b :: rest => decide (a.start < a.stop) && decide (a.stop ≤ b.start) && spansOkB (b :: rest)
+
+/-- a valid chunk of (super-)run `rid` carrying a sub-run annotation as strax produces them -/
+def annotatedOkB (rid : String) (c : Chunk) : Bool :=
+  decide (0 ≤ c.start) && decide (c.start ≤ c.stop) && rowsInside c.start c.stop c.rows &&
+  (c.runId == some rid) &&
+  (match c.subruns with
+   | some sub => spansOkB sub
+   | none => false)
 
 /-- the conventions on top of the laws of chunking that a stream of run `rid` obeys: non-negative
 times, run id `rid`, restorable subruns (mandatory for a super-run id) -/
